@@ -8,6 +8,8 @@ export GOFLAGS=-mod=mod GOPROXY=off GOSUMDB=off GOTOOLCHAIN=local
 # the directory this script lives in (normally /verif; a snapshot worktree when started through `vp run`)
 VERIF_ROOT="$(cd "$(dirname "$0")" && pwd)"
 export VERIF_ROOT
+# the repository under verification (the harness go.mod points at it with a replace directive)
+REPO="${VERIF_REPO:-/repo}"
 cd "$VERIF_ROOT/harness" || exit 2
 case "$MODE" in
   quick|thorough) export VERIF_TIER="$MODE" ;;
@@ -18,7 +20,7 @@ mkdir -p $VERIF_ROOT/bin $VERIF_ROOT/.work
 BIN=$VERIF_ROOT/bin/vcheck
 (
   flock 9
-  cmp -s /repo/go.sum go.sum || cp /repo/go.sum go.sum
+  cmp -s $REPO/go.sum go.sum || cp $REPO/go.sum go.sum
   case "$ID" in
     C01)
       # environment exploration needs the consensus-profile overlay generated from the current tree
